@@ -265,6 +265,14 @@ def call(fn, *args, **kw):
 	except CaseTimeout:
 		raise
 	except RecursionError as exc:
+		exc.__traceback__ = None
 		return Out(False, exc=exc)
 	except Exception as exc:
+		# drop the traceback: its frames would keep locals of library code alive (e.g. the owner list built by
+		# check_writable), which a real program's `except AliasError:` block releases on exit
+		exc.__traceback__ = None
+		ctx = exc.__context__
+		while ctx is not None:
+			ctx.__traceback__ = None
+			ctx = ctx.__context__
 		return Out(False, exc=exc)
